@@ -43,6 +43,9 @@ class Models:
     def lookup(self, name):
         if name in self.extra:
             return self.extra[name]
+        mi = re.match(r'(?:core|std)::num::<impl (\w+)>::(\w+)$', name)
+        if mi and mi.group(1) in INT_W and mi.group(2) in INT_METHODS:
+            return lambda I, a, ty=mi.group(1), meth=mi.group(2): INT_METHODS[meth](I, ty, a)
         if name in EXACT:
             return EXACT[name]
         # the same item is spelled core:: or std:: depending on where it is re-exported
@@ -805,6 +808,15 @@ def split_next(I, it):
 @model('std::slice::<impl [T]>::join', 'std::slice::<impl [T]>::concat')
 def _(I, a):
     lst, st, en = as_list(a[0])
+    if en > st and isinstance(deref(lst[st]), (VecObj, SliceRef)) or (en == st and 'Vec<' in I.cur_func and 'str' not in I.cur_func and 'String' not in I.cur_func):
+        out = []
+        for k, x in enumerate(lst[st:en]):
+            if k and len(a) > 1:
+                l2, s2, e2 = as_list(a[1]) if isinstance(deref(a[1]), (VecObj, SliceRef, Agg)) else ([a[1]], 0, 1)
+                out.extend(clone_val(y) for y in l2[s2:e2])
+            l1, s1, e1 = as_list(x)
+            out.extend(clone_val(y) for y in l1[s1:e1])
+        return VecObj(out)
     sep = list(as_bytes(a[1])) if len(a) > 1 else []
     buf = []
     for k, x in enumerate(lst[st:en]):
@@ -848,10 +860,17 @@ def _(I, a):
        'std::str::<impl str>::to_ascii_lowercase', 'std::str::<impl str>::to_ascii_uppercase')
 def _(I, a):
     bs = as_bytes(a[0])
+    lower = 'lower' in I.cur_func
+    if '_ascii_' in I.cur_func:
+        # bytes A-Z / a-z only; every other byte (all of a multi-byte character) is kept
+        lo, hi, d = (65, 90, 32) if lower else (97, 122, -32)
+        return StringObj([(z3.If(z3.And(z3.UGE(b, lo), z3.ULE(b, hi)), b + d, b) if is_sym(b) else (b + d if lo <= b <= hi else b)) for b in bs])
     if any(is_sym(b) for b in bs):
         raise Unsupported('case mapping of symbolic text')
     s = bytes(bs).decode()
-    return mk_string(s.lower() if 'lower' in I.cur_func else s.upper())
+    if any(ord(c) > 127 for c in s):
+        raise Unsupported('Unicode case mapping of non-ASCII text (the tables of Rust and Python may differ)')
+    return mk_string(s.lower() if lower else s.upper())
 
 
 @model('core::str::<impl str>::eq_ignore_ascii_case')
@@ -871,6 +890,20 @@ def _(I, a):
 @model('core::str::<impl str>::parse')
 def _(I, a):
     bs = as_bytes(a[0])
+    mt = re.search(r'parse::<(\w+)>$', I.cur_func)
+    if mt and mt.group(1) in INT_W and mt.group(1) != 'char':
+        if any(is_sym(b) for b in bs):
+            raise Unsupported('parse symbolic number')
+        ty = mt.group(1)
+        try:
+            t = bytes(bs).decode()
+        except UnicodeDecodeError:
+            return err(Opaque('parse_error'))
+        if not re.match(r'^[+-]?[0-9]+$' if ty in SIGNED else r'^\+?[0-9]+$', t):
+            return err(Opaque('parse_error'))
+        v = int(t)
+        lo, hi = _rng(ty)
+        return ok(v) if lo <= v <= hi else err(Opaque('parse_error'))
     if 'usize' in I.cur_func or 'u32' in I.cur_func or 'u64' in I.cur_func:
         if any(is_sym(b) for b in bs):
             raise Unsupported('parse symbolic number')
@@ -1008,6 +1041,7 @@ def into_iter(I, a):
         if isinstance(d, Iter):
             return d
         if isinstance(d, SetObj):
+            set_dedup(I, d)
             return Iter('slice_iter', lst=d.items, pos=0, end=len(d.items))
         if isinstance(d, Agg):
             ty = d.ty or ''
@@ -1024,6 +1058,7 @@ def into_iter(I, a):
     if isinstance(v, Enum) and v.ty == 'Option':
         return Iter('into_iter', lst=list(v.fields), pos=0, end=len(v.fields))
     if isinstance(v, SetObj):
+        set_dedup(I, v)
         return Iter('into_iter', lst=v.items, pos=0, end=len(v.items))
     raise Unsupported('into_iter of ' + type(v).__name__)
 
@@ -1767,8 +1802,10 @@ def collect(I, a):
             else:
                 buf.extend(encode_char(x))
         return StringObj(buf)
-    if target.startswith('std::collections::HashSet') or target.startswith('std::collections::BTreeSet'):
-        return SetObj(out)
+    if target.startswith('std::collections::HashSet'):
+        so = SetObj(out)
+        so.raw = True   # may still hold duplicates: membership does not care, len / iteration remove them first (set_dedup)
+        return so
     if target.startswith('std::vec::Vec') or target.startswith('std::boxed::Box<['):
         return VecObj(out)
     raise Unsupported('collect into ' + target)
@@ -1910,9 +1947,14 @@ def generic_index(I, a):
     idx = a[1]
     if isinstance(c, (StrRef, StringObj)):
         return str_index(I, [c, idx])
+    if isinstance(c, MapObj):
+        for ent in c.items:
+            if I.branch(val_eq(I, ent[0], idx)):
+                return Ref(Slot(ent, 1))
+        raise RustPanic('HashMap index: key not found')
     lst, st, en = as_list(c)
     n = en - st
-    if isinstance(idx, Agg):
+    if isinstance(idx, (Agg, FnItem)):
         lo, hi = range_bounds(idx, n)
         if lo > hi:
             raise RustPanic(f'slice index starts at {lo} but ends at {hi}')
@@ -1977,21 +2019,51 @@ def _(I, a):
     return Agg()
 
 
-def _sort_key_concrete(x):
+class _Rev:
+    """std::cmp::Reverse as a sort key"""
+    __slots__ = ('k',)
+
+    def __init__(s, k):
+        s.k = k
+
+    def __lt__(s, o):
+        return o.k < s.k
+
+    def __eq__(s, o):
+        return s.k == o.k
+
+
+def _sort_key_concrete(x, I=None):
     x = deref(x)
     if isinstance(x, Agg):
-        return tuple(_sort_key_concrete(y) for y in x)
+        if 'Reverse' in str(getattr(x, 'ty', '')):
+            return _Rev(_sort_key_concrete(x[0], I))
+        return tuple(_sort_key_concrete(y, I) for y in x)
     if isinstance(x, Enum):
-        return (0,) if x.variant == 'None' else (1,) + tuple(_sort_key_concrete(y) for y in x.fields)
+        if x.variant in ('None', 'Some'):
+            return (0,) if x.variant == 'None' else (1,) + tuple(_sort_key_concrete(y, I) for y in x.fields)
+        if x.variant in ('Ok', 'Err'):
+            return (0 if x.variant == 'Ok' else 1,) + tuple(_sort_key_concrete(y, I) for y in x.fields)
+        if x.variant in ('Less', 'Equal', 'Greater'):
+            return ('Less', 'Equal', 'Greater').index(x.variant)
+        order = I.crate.enums.get(x.ty) if I is not None else None
+        if order and x.variant in order:
+            return (order.index(x.variant),) + tuple(_sort_key_concrete(y, I) for y in x.fields)
+        raise Unsupported('sort key enum ' + str(x.ty))
     if isinstance(x, bool) or isinstance(x, int):
         return x
+    if isinstance(x, (StrRef, StringObj)):
+        bs = as_bytes(x)
+        if any(is_sym(b) for b in bs):
+            raise Unsupported('sort key: symbolic text')
+        return tuple(bs)   # str orders by bytes
     raise Unsupported('sort key ' + type(x).__name__)
 
 
 @model('std::slice::<impl [T]>::sort', 'core::slice::<impl [T]>::sort_unstable')
 def _(I, a):
     lst, st, en = as_list(a[0])
-    lst[st:en] = sorted(lst[st:en], key=_sort_key_concrete)
+    lst[st:en] = sorted(lst[st:en], key=lambda v: _sort_key_concrete(v, I))
     return Agg()
 
 
@@ -1999,8 +2071,8 @@ def _(I, a):
        'std::slice::<impl [T]>::sort_by_cached_key')
 def _(I, a):
     lst, st, en = as_list(a[0])
-    keyed = [(_sort_key_concrete(I.call_closure(a[1], [Ref(Slot([x], 0))])), i, x) for i, x in enumerate(lst[st:en])]
-    keyed.sort(key=lambda t: (t[0], t[1]))
+    keyed = [(_sort_key_concrete(I.call_closure(a[1], [Ref(Slot([x], 0))]), I), i, x) for i, x in enumerate(lst[st:en])]
+    keyed.sort(key=lambda t: t[0])   # Python's sort is stable, like sort_by_key
     lst[st:en] = [t[2] for t in keyed]
     return Agg()
 
@@ -2225,25 +2297,28 @@ def _(I, a):
     return it_len(I, as_iter(I, a[0]))
 
 
-def _scalars(a):
+def _scalars(a, I=None):
     x, y = deref(a[0]), deref(a[1])
     if is_sym(x) or is_sym(y):
         raise Unsupported('symbolic ordering')
-    return x, y
+    if isinstance(x, (bool, int)) and isinstance(y, (bool, int)):
+        return x, y
+    # tuples, strings, Option, Reverse ...: the derived / lexicographic orders, via the sort key
+    return _sort_key_concrete(x, I), _sort_key_concrete(y, I)
 
 
 def ord_min(I, a):
-    x, y = _scalars(a)
-    return x if x <= y else y
+    x, y = _scalars(a, I)
+    return a[0] if not (y < x) else a[1]      # Ord::min returns self when equal
 
 
 def ord_max(I, a):
-    x, y = _scalars(a)
-    return y if y >= x else x
+    x, y = _scalars(a, I)
+    return a[1] if not (y < x) else a[0]      # Ord::max returns other when equal
 
 
 def ord_cmp(I, a):
-    x, y = _scalars(a)
+    x, y = _scalars(a, I)
     return Enum('Ordering', 'Less' if x < y else ('Equal' if x == y else 'Greater'), [])
 
 
@@ -2251,8 +2326,8 @@ def ord_rel(I, a, meth):
     x, y = deref(a[0]), deref(a[1])
     if isinstance(x, Opaque) and x.kind == 'instant':
         return instant_rel(I, x, y, meth)
-    x, y = _scalars(a)
-    return {'lt': x < y, 'le': x <= y, 'gt': x > y, 'ge': x >= y}[meth]
+    x, y = _scalars(a, I)
+    return {'lt': x < y, 'le': not (y < x), 'gt': y < x, 'ge': not (x < y)}[meth]
 
 
 EXACT['std::cmp::min'] = ord_min
@@ -2446,6 +2521,17 @@ def _(I, a):
     return True
 
 
+def set_dedup(I, s):
+    if getattr(s, 'raw', False):
+        out = []
+        for v in s.items:
+            if not any(I.branch(val_eq(I, v, w)) for w in out):
+                out.append(v)
+        s.items[:] = out
+        s.raw = False
+    return s
+
+
 @model('std::collections::HashSet::is_empty')
 def _(I, a):
     return not deref(a[0]).items
@@ -2453,19 +2539,21 @@ def _(I, a):
 
 @model('std::collections::HashSet::len')
 def _(I, a):
-    return len(deref(a[0]).items)
+    return len(set_dedup(I, deref(a[0])).items)
 
 
 @model('std::collections::HashSet::iter')
 def _(I, a):
-    s = deref(a[0])
+    # (iteration order of a HashSet is unspecified; the model iterates in insertion order - any / all / find-by-equality do not depend on it)
+    s = set_dedup(I, deref(a[0]))
     return Iter('slice_iter', lst=s.items, pos=0, end=len(s.items))
 
 
 # ---------------- fmt / panics -----------------
 @model('core::fmt::rt::Argument::new_display', 'core::fmt::rt::Argument::new_debug')
 def _(I, a):
-    return Opaque('fmtarg', how='display' if 'display' in I.cur_func else 'debug', v=deref(a[0]))
+    m = re.search(r'new_(?:display|debug)::<(.*)>$', I.cur_func)
+    return Opaque('fmtarg', how='display' if 'display' in I.cur_func else 'debug', v=deref(a[0]), ty=(m.group(1).lstrip('&').strip() if m else None))
 
 
 @model('core::fmt::rt::Argument::from_usize')
@@ -2517,7 +2605,7 @@ def render_args(I, fa):
                 width = t[i] | (t[i + 1] << 8)
                 i += 2
             if n & 4:
-                i += 2
+                raise Unsupported('fmt precision')
             if n & 8:
                 argi = t[i] | (t[i + 1] << 8)
                 i += 2
@@ -2531,9 +2619,12 @@ def render_args(I, fa):
             if isinstance(v, bool):
                 body = list(str(v).lower().encode())
                 numeric = False
+            elif isinstance(v, int) and getattr(arg, 'ty', None) == 'char':
+                if arg.how == 'debug':
+                    raise Unsupported('Debug formatting')
+                body = list(chr(v).encode())
+                numeric = False
             elif isinstance(v, int):
-                if 'char' in I.cur_func and arg.how == 'display' and False:
-                    body = encode_char(v)
                 body = list(str(v).encode())
                 numeric = True
             elif isinstance(v, (StringObj, StrRef)):
@@ -2543,6 +2634,8 @@ def render_args(I, fa):
                     raise Unsupported('Debug formatting')
             else:
                 raise Unsupported('fmt arg ' + type(v).__name__)
+            if flags & ((1 << 21) | (1 << 23) | (1 << 25) | (1 << 26)):
+                raise Unsupported('fmt flags + / # / hex-debug')
             if width is not None:
                 if any(is_sym(x) for x in body):
                     raise Unsupported('width with symbolic text')
@@ -2550,6 +2643,11 @@ def render_args(I, fa):
                 pad = max(0, width - nchars)
                 fill = list(chr(flags & 0x1FFFFF).encode())
                 align = (flags >> 29) & 3
+                if numeric and flags & (1 << 24):
+                    # sign-aware zero padding: the zeros go between the sign and the digits, fill and alignment are ignored
+                    sign = body[:1] if body[:1] in ([45], [43]) else []
+                    body = sign + [48] * pad + body[len(sign):]
+                    pad = 0
                 if align == 3:
                     align = 1 if numeric else 0
                 if align == 0:
@@ -3211,3 +3309,390 @@ def _(I, a):
 @model('std::cmp::Ordering::then')
 def _(I, a):
     return a[0] if a[0].variant != 'Equal' else a[1]
+
+
+# ---------------- integer methods for every width (concrete values; the common ones also on bit-vector terms) -----------------
+INT_METHODS = {}
+
+
+def intmethod(*names):
+    def deco(fn):
+        for n in names:
+            INT_METHODS[n] = fn
+        return fn
+    return deco
+
+
+def _rng(ty):
+    w = INT_W[ty]
+    return (-(1 << (w - 1)), (1 << (w - 1)) - 1) if ty in SIGNED else (0, (1 << w) - 1)
+
+
+def _wrap(ty, v):
+    w = INT_W[ty]
+    v &= (1 << w) - 1
+    if ty in SIGNED and v >= 1 << (w - 1):
+        v -= 1 << w
+    return v
+
+
+def _conc2(a):
+    x, y = deref(a[0]), deref(a[1])
+    if is_sym(x) or is_sym(y):
+        return None
+    return int(x), int(y)
+
+
+def _zz(ty, v):
+    return v if is_sym(v) else z3.BitVecVal(v, INT_W[ty])
+
+
+def _lt(ty, x, y):
+    return (x < y) if ty in SIGNED else z3.ULT(x, y)
+
+
+@intmethod('saturating_sub', 'saturating_add', 'saturating_mul')
+def _(I, ty, a, op=None):
+    meth = re.search(r'::(\w+)$', strip_generics(I.cur_func)).group(1)
+    c = _conc2(a)
+    lo, hi = _rng(ty)
+    if c:
+        r = {'saturating_sub': c[0] - c[1], 'saturating_add': c[0] + c[1], 'saturating_mul': c[0] * c[1]}[meth]
+        return max(lo, min(hi, r))
+    if ty in SIGNED or meth == 'saturating_mul':
+        raise Unsupported('symbolic ' + meth + ' on ' + ty)
+    x, y = _zz(ty, deref(a[0])), _zz(ty, deref(a[1]))
+    if meth == 'saturating_sub':
+        return z3.If(z3.ULT(x, y), z3.BitVecVal(0, INT_W[ty]), x - y)
+    return z3.If(z3.ULT(x + y, x), z3.BitVecVal(hi, INT_W[ty]), x + y)
+
+
+@intmethod('checked_sub', 'checked_add', 'checked_mul', 'checked_div', 'checked_rem')
+def _(I, ty, a):
+    meth = re.search(r'::(\w+)$', strip_generics(I.cur_func)).group(1)
+    c = _conc2(a)
+    lo, hi = _rng(ty)
+    if c:
+        x, y = c
+        if meth in ('checked_div', 'checked_rem'):
+            if y == 0 or (ty in SIGNED and x == lo and y == -1):
+                return NONE()
+            q = abs(x) // abs(y) * (1 if (x < 0) == (y < 0) else -1)
+            return some(q if meth == 'checked_div' else x - q * y)
+        r = {'checked_sub': x - y, 'checked_add': x + y, 'checked_mul': x * y}[meth]
+        return some(r) if lo <= r <= hi else NONE()
+    if ty in SIGNED or meth not in ('checked_sub', 'checked_add'):
+        raise Unsupported('symbolic ' + meth + ' on ' + ty)
+    x, y = _zz(ty, deref(a[0])), _zz(ty, deref(a[1]))
+    if meth == 'checked_sub':
+        return NONE() if I.branch(z3.ULT(x, y)) else some(x - y)
+    return NONE() if I.branch(z3.ULT(x + y, x)) else some(x + y)
+
+
+@intmethod('wrapping_sub', 'wrapping_add', 'wrapping_mul', 'wrapping_neg')
+def _(I, ty, a):
+    meth = re.search(r'::(\w+)$', strip_generics(I.cur_func)).group(1)
+    if meth == 'wrapping_neg':
+        x = deref(a[0])
+        return -x if is_sym(x) else _wrap(ty, -x)
+    c = _conc2(a)
+    if c:
+        return _wrap(ty, {'wrapping_sub': c[0] - c[1], 'wrapping_add': c[0] + c[1], 'wrapping_mul': c[0] * c[1]}[meth])
+    x, y = _zz(ty, deref(a[0])), _zz(ty, deref(a[1]))
+    return {'wrapping_sub': x - y, 'wrapping_add': x + y, 'wrapping_mul': x * y}[meth]
+
+
+@intmethod('overflowing_sub', 'overflowing_add', 'overflowing_mul')
+def _(I, ty, a):
+    meth = re.search(r'::(\w+)$', strip_generics(I.cur_func)).group(1)
+    c = _conc2(a)
+    if not c:
+        raise Unsupported('symbolic ' + meth)
+    lo, hi = _rng(ty)
+    r = {'overflowing_sub': c[0] - c[1], 'overflowing_add': c[0] + c[1], 'overflowing_mul': c[0] * c[1]}[meth]
+    return Agg([_wrap(ty, r), not (lo <= r <= hi)])
+
+
+@intmethod('abs_diff')
+def _(I, ty, a):
+    c = _conc2(a)
+    if c:
+        return abs(c[0] - c[1])
+    x, y = _zz(ty, deref(a[0])), _zz(ty, deref(a[1]))
+    return z3.If(_lt(ty, x, y), y - x, x - y)
+
+
+@intmethod('min', 'max')
+def _(I, ty, a):
+    meth = re.search(r'::(\w+)$', strip_generics(I.cur_func)).group(1)
+    c = _conc2(a)
+    if c:
+        return min(c) if meth == 'min' else max(c)
+    x, y = _zz(ty, deref(a[0])), _zz(ty, deref(a[1]))
+    return z3.If(_lt(ty, y, x), y, x) if meth == 'min' else z3.If(_lt(ty, y, x), x, y)
+
+
+@intmethod('clamp')
+def _(I, ty, a):
+    x, lo, hi = deref(a[0]), deref(a[1]), deref(a[2])
+    if any(is_sym(v) for v in (x, lo, hi)):
+        raise Unsupported('symbolic clamp')
+    if lo > hi:
+        raise RustPanic('assertion failed: min <= max')
+    return max(lo, min(hi, x))
+
+
+@intmethod('pow')
+def _(I, ty, a):
+    c = _conc2(a)
+    if not c:
+        raise Unsupported('symbolic pow')
+    lo, hi = _rng(ty)
+    r = c[0] ** c[1]
+    if not lo <= r <= hi:
+        raise RustPanic('attempt to multiply with overflow')
+    return r
+
+
+@intmethod('leading_zeros', 'trailing_zeros', 'count_ones', 'count_zeros', 'is_power_of_two', 'unsigned_abs', 'abs', 'signum', 'rem_euclid', 'div_euclid', 'div_ceil',
+           'next_power_of_two', 'isqrt', 'ilog2', 'ilog10')
+def _(I, ty, a):
+    meth = re.search(r'::(\w+)$', strip_generics(I.cur_func)).group(1)
+    vals = [deref(v) for v in a]
+    if any(is_sym(v) for v in vals):
+        raise Unsupported('symbolic ' + meth)
+    x = int(vals[0])
+    w = INT_W[ty]
+    u = x & ((1 << w) - 1)
+    lo, hi = _rng(ty)
+    if meth == 'leading_zeros':
+        return w - u.bit_length()
+    if meth == 'trailing_zeros':
+        return w if u == 0 else (u & -u).bit_length() - 1
+    if meth == 'count_ones':
+        return bin(u).count('1')
+    if meth == 'count_zeros':
+        return w - bin(u).count('1')
+    if meth == 'is_power_of_two':
+        return u != 0 and u & (u - 1) == 0
+    if meth == 'unsigned_abs':
+        return abs(x)
+    if meth == 'abs':
+        if x == lo and ty in SIGNED:
+            raise RustPanic('attempt to negate with overflow')
+        return abs(x)
+    if meth == 'signum':
+        return (x > 0) - (x < 0)
+    if meth in ('rem_euclid', 'div_euclid', 'div_ceil'):
+        y = int(vals[1])
+        if y == 0:
+            raise RustPanic('attempt to divide by zero')
+        if meth == 'div_ceil':
+            if ty in SIGNED:
+                raise Unsupported('signed div_ceil')
+            return -(-x // y)
+        r = x % abs(y)          # Python: result has the sign of the divisor -> non-negative here
+        if meth == 'rem_euclid':
+            return r
+        q = (x - r) // y
+        if not lo <= q <= hi:
+            raise RustPanic('attempt to divide with overflow')
+        return q
+    if meth == 'next_power_of_two':
+        r = 1 if u <= 1 else 1 << (u - 1).bit_length()
+        if r > hi:
+            raise RustPanic('attempt to add with overflow')
+        return r
+    if meth == 'isqrt':
+        import math
+        if x < 0:
+            raise RustPanic('argument of integer square root cannot be negative')
+        return math.isqrt(x)
+    if meth in ('ilog2', 'ilog10'):
+        if x <= 0:
+            raise RustPanic('argument of integer logarithm must be positive')
+        return x.bit_length() - 1 if meth == 'ilog2' else len(str(x)) - 1
+    raise Unsupported(meth)
+
+
+# ---------------- str search with every pattern kind; more String / Vec / Option surface -----------------
+def find_pat(I, s, pat, backwards=False):
+    """absolute start offset of the first (last) match of a pattern (pattern_of) in s, or None; forks"""
+    if not backwards:
+        i = s.start
+        while i <= s.end:
+            n = match_at(I, s, i, pat)
+            if n is not None:
+                return i, n
+            if i >= s.end:
+                break
+            if pat[0] == 'alts':
+                i += 1
+            else:
+                i += decode_at(I, s, i)[1]
+        return None
+    i = s.end
+    while i >= s.start:
+        n = match_at(I, s, i, pat, backwards=True)
+        if n is not None:
+            return i - n, n
+        if i <= s.start:
+            break
+        i = i - 1 if pat[0] == 'alts' else char_start_before(I, s, i)
+    return None
+
+
+def _find(I, a):
+    s = as_str(a[0])
+    r = find_pat(I, s, pattern_of(a[1]))
+    return NONE() if r is None else some(r[0] - s.start)
+
+
+def _rfind(I, a):
+    s = as_str(a[0])
+    r = find_pat(I, s, pattern_of(a[1]), backwards=True)
+    return NONE() if r is None else some(r[0] - s.start)
+
+
+def _contains(I, a):
+    s = as_str(a[0])
+    return find_pat(I, s, pattern_of(a[1])) is not None
+
+
+EXACT['core::str::<impl str>::find'] = _find
+EXACT['core::str::<impl str>::rfind'] = _rfind
+EXACT['core::str::<impl str>::contains'] = _contains
+
+
+@model('std::str::<impl str>::replacen')
+def _(I, a):
+    s = as_str(a[0])
+    pat = pattern_of(a[1])
+    rep = list(as_bytes(a[2]))
+    count = a[3]
+    if is_sym(count):
+        raise Unsupported('symbolic replacen count')
+    out, i, done = [], s.start, 0
+    while done < count:
+        r = find_pat(I, StrRef(s.buf, i, s.end), pat)
+        if r is None or (r[1] == 0):
+            if r is not None and r[1] == 0:
+                raise Unsupported('replacen with an empty pattern')
+            break
+        out += s.buf[i:r[0]] + rep
+        i = r[0] + r[1]
+        done += 1
+    return StringObj(out + s.buf[i:s.end])
+
+
+@model('std::string::String::retain')
+def _(I, a):
+    so = deref(a[0])
+    s = StrRef(so.buf, 0, len(so.buf))
+    out, i = [], 0
+    while i < s.end:
+        c, w = decode_at(I, s, i)
+        if I.branch(I.call_closure(a[1], [c])):
+            out += so.buf[i:i + w]
+        i += w
+    so.buf[:] = out
+    return Agg()
+
+
+@model('std::string::String::drain')
+def _(I, a):
+    so = deref(a[0])
+    n = len(so.buf)
+    lo, hi = range_bounds(a[1], n)
+    tmp = StrRef(so.buf, 0, n)
+    if lo > hi:
+        raise RustPanic(f'slice index starts at {lo} but ends at {hi}')
+    if hi > n:
+        raise RustPanic(f'range end index {hi} out of range for slice of length {n}')
+    if not is_boundary(I, tmp, lo) or not is_boundary(I, tmp, hi):
+        raise RustPanic('String::drain: assertion failed: self.is_char_boundary(n)')
+    taken = list(so.buf[lo:hi])
+    del so.buf[lo:hi]
+    t = StrRef(taken, 0, len(taken))
+    return ITER_MAKERS['chars'](I, [t]) if 'ITER_MAKERS' in globals() else EXACT['core::str::<impl str>::chars'](I, [t])
+
+
+@model('std::string::String::split_off')
+def _(I, a):
+    so = deref(a[0])
+    at = a[1]
+    n = len(so.buf)
+    if at > n or not is_boundary(I, StrRef(so.buf, 0, n), at):
+        raise RustPanic('String::split_off: assertion failed: self.is_char_boundary(at)')
+    tail = list(so.buf[at:])
+    del so.buf[at:]
+    return StringObj(tail)
+
+
+@model('std::borrow::Cow::into_owned')
+def _(I, a):
+    c = a[0]
+    v = c.fields[0]
+    d = deref(v)
+    if isinstance(d, (StrRef, StringObj)):
+        return StringObj(list(as_bytes(d)))
+    return to_owned(I, [v]) if c.variant == 'Borrowed' else v
+
+
+def _vec_dedup(I, a):
+    v = deref(a[0])
+    out = []
+    for x in v.items:
+        if out and I.branch(val_eq(I, out[-1], x)):
+            continue
+        out.append(x)
+    v.items[:] = out
+    return Agg()
+
+
+EXACT['std::vec::Vec::dedup'] = _vec_dedup
+
+
+@model('core::slice::<impl [T]>::ends_with')
+def _(I, a):
+    lst, st, en = as_list(a[0])
+    l2, s2, e2 = as_list(a[1])
+    n = e2 - s2
+    if n > en - st:
+        return False
+    return b_and(val_eq(I, x, y) for x, y in zip(lst[en - n:en], l2[s2:e2]))
+
+
+@model('std::option::Option::iter', 'std::option::Option::iter_mut')
+def _(I, a):
+    o = deref(a[0])
+    return Iter('slice_iter', lst=o.fields, pos=0, end=len(o.fields) if o.variant == 'Some' else 0)
+
+
+@model('std::result::Result::unwrap_err', 'std::result::Result::expect_err')
+def _(I, a):
+    r = a[0]
+    if r.variant == 'Ok':
+        raise RustPanic('called `Result::unwrap_err()` on an `Ok` value')
+    return r.fields[0]
+
+
+@model('std::result::Result::err')
+def _(I, a):
+    r = a[0]
+    return some(r.fields[0]) if r.variant == 'Err' else NONE()
+
+
+@model('std::result::Result::ok_or', 'std::option::Option::ok_or')
+def _(I, a):
+    o = a[0]
+    return ok(o.fields[0]) if o.variant == 'Some' else err(a[1])
+
+
+@model('std::option::Option::as_deref', 'std::option::Option::as_deref_mut')
+def _(I, a):
+    o = deref(a[0])
+    if o.variant == 'None':
+        return NONE()
+    v = deref(o.fields[0])
+    return some(as_str(v) if isinstance(v, (StringObj, StrRef)) else v)
